@@ -41,6 +41,77 @@ fn say(std: bool, what: &str) -> String {
 fn program(pk: &str, pn: u64, why: &str, std: bool, v: u64) -> BTreeMap<String, String> {
     let mut f: BTreeMap<String, String> = BTreeMap::new();
     let v = v % 3;
+    // classes that are told apart by `why`
+    match why {
+        "longline" | "longline_nl" => {
+            // a string literal of more than 8 KiB on one line; with "_nl" a line end inside the literal, followed by > 8 KiB
+            let filler: String = (0..(8400 + 700 * v as usize)).map(|i| (b'a' + (i % 23) as u8) as char).collect();
+            let lit = if why == "longline" { filler } else { format!("head of the literal\n{}", filler) };
+            let body = match v {
+                0 => format!("start :: fn do\n{}    s := \"{}\"\n    s <=> s\n{}end\n", say(std, "\"before\""), lit, say(std, "\"after\"")),
+                1 => format!(
+                    "long :: fn -> str do\n    ret \"{}\"\nend\n\nstart :: fn do\n{}    long() <=> long()\n{}end\n",
+                    lit,
+                    say(std, "1 + 2"),
+                    say(std, "\"after\"")
+                ),
+                _ => {
+                    f.insert("sub.sy".into(), format!("long :: fn -> str do\n    ret \"{}\"\nend\n", lit));
+                    format!("use sub\n\nstart :: fn do\n{}    sub.long() <=> sub.long()\nend\n", say(std, "\"before\""))
+                }
+            };
+            f.insert("main.sy".into(), body);
+            return f;
+        }
+        "missing2" | "missing3" | "missing_shared" | "missing_plus_syntax" => {
+            let head = say(std, "\"never printed\"");
+            match why {
+                "missing2" => {
+                    let uses = ["use c20gone1\nuse c20gone2\n", "use c20gone1\nuse sub\nuse c20gone2\n", "use sub\n"][v as usize];
+                    f.insert("main.sy".into(), format!("{}\nstart :: fn do\n{}end\n", uses, head));
+                    if v >= 1 {
+                        // v = 2: both are missed by an imported file
+                        f.insert("sub.sy".into(), (if v == 2 { "use c20gone1\nuse c20gone2\n\ng :: fn do\nend\n" } else { "g :: fn do\nend\n" }).into());
+                    }
+                }
+                "missing3" => {
+                    let uses = ["use c20gone1\nuse c20gone2\nuse c20gone3\n", "use c20gone3\nuse sub\nuse c20gone1\nuse c20gone2\n", "use c20gone1\nuse sub\n"][v as usize];
+                    f.insert("main.sy".into(), format!("{}\nstart :: fn do\n{}end\n", uses, head));
+                    if v >= 1 {
+                        f.insert("sub.sy".into(), (if v == 2 { "use c20gone2\nuse c20gone3\n\ng :: fn do\nend\n" } else { "g :: fn do\nend\n" }).into());
+                    }
+                }
+                "missing_shared" => {
+                    // the same missing file, imported from two files
+                    f.insert("main.sy".into(), format!("use suba\nuse subb\n{}\nstart :: fn do\n{}end\n", if v == 1 { "use c20gone1\n" } else { "" }, head));
+                    f.insert("suba.sy".into(), "use c20gone1\n\ng :: fn do\nend\n".into());
+                    f.insert("subb.sy".into(), (if v == 2 { "h :: fn do\nend\n" } else { "use c20gone1\n\nh :: fn do\nend\n" }).into());
+                    if v == 2 {
+                        // ... or twice from the same file's tree: main and suba
+                        f.insert("main.sy".into(), format!("use suba\nuse subb\nuse c20gone1\n\nstart :: fn do\n{}end\n", head));
+                    }
+                }
+                _ => {
+                    // a missing import and a syntax error elsewhere
+                    match v {
+                        0 => {
+                            f.insert("main.sy".into(), format!("use c20gone1\nuse sub\n\nstart :: fn do\n{}end\n", head));
+                            f.insert("sub.sy".into(), "g :: fn do\n    z := )\nend\n".into());
+                        }
+                        1 => {
+                            f.insert("main.sy".into(), format!("use sub\n\nstart :: fn do\n{}    z := )\nend\n", head));
+                            f.insert("sub.sy".into(), "use c20gone1\n\ng :: fn do\nend\n".into());
+                        }
+                        _ => {
+                            f.insert("main.sy".into(), format!("use c20gone1\n\nstart :: fn do\n{}    z := ]\nend\n", head));
+                        }
+                    }
+                }
+            }
+            return f;
+        }
+        _ => {}
+    }
     match pk {
         "acc" => match v {
             0 => {
@@ -195,6 +266,9 @@ fn target_of(mode: &str, path: &str) -> Target {
         ("file", "missing_parent") => "nodir/out.lua",
         ("file", "is_directory") => "outdir",
         ("file", "unwritable_device") => "/dev/full",
+        ("file", "dev_null") => "/dev/null",
+        ("file", "dev_stdout") => "/dev/stdout",
+        ("file", "fifo") => "out.fifo",
         ("file", _) => "out.lua",
         _ => "",
     };
@@ -280,11 +354,11 @@ fn strip_ansi(s: &str) -> String {
 
 /// The error blocks of a text, wording-free: one per line that ends in `<file>:<line>` where <file> is one of the
 /// project's source files (as the command was given them) and is not glued to a longer name.
-fn blocks(text: &str, names: &[String]) -> Vec<Value> {
+fn blocks(text: &str, rc: &Recog) -> Vec<Value> {
     let mut out = Vec::new();
-    for line in strip_ansi(text).lines() {
+    'lines: for line in strip_ansi(text).lines() {
         let line = line.trim_end();
-        for name in names {
+        for name in rc.names.iter() {
             let pat = format!("{}:", name);
             if let Some(at) = line.rfind(&pat) {
                 let digits = &line[at + pat.len()..];
@@ -292,13 +366,26 @@ fn blocks(text: &str, names: &[String]) -> Vec<Value> {
                 if before_ok && !digits.is_empty() && digits.chars().all(|c| c.is_ascii_digit()) {
                     if let Ok(n) = digits.parse::<u64>() {
                         out.push(json!({"file": name, "line": n}));
-                        break;
+                        continue 'lines;
                     }
                 }
             }
         }
+        // an error without a source location: a line that names an imported file that does not exist
+        for name in rc.missing.iter() {
+            if line.contains(name.as_str()) {
+                out.push(json!({"file": name, "line": 0}));
+                continue 'lines;
+            }
+        }
     }
     out
+}
+
+/// What the block recogniser looks for: the project's source files and the imported files that do not exist.
+struct Recog {
+    names: Vec<String>,
+    missing: Vec<String>,
 }
 
 /// Raw facts about a list of error blocks: how many, a digest of the list, a digest of the sorted list (the bag),
@@ -310,7 +397,10 @@ fn block_facts(bl: &[Value]) -> Value {
     let mut files: Vec<String> = bl.iter().map(|b| b["file"].as_str().unwrap_or("").to_string()).collect();
     files.sort();
     files.dedup();
-    json!({"n": bl.len(), "seq": digest(keys.join(";").as_bytes()), "bag": digest(sorted.join(";").as_bytes()), "files": files,
+    let mut named: Vec<String> = bl.iter().filter(|b| b["line"] == 0).map(|b| b["file"].as_str().unwrap_or("").to_string()).collect();
+    named.sort();
+    named.dedup();
+    json!({"n": bl.len(), "seq": digest(keys.join(";").as_bytes()), "bag": digest(sorted.join(";").as_bytes()), "files": files, "named": named,
            "head": bl.iter().take(4).cloned().collect::<Vec<_>>()})
 }
 
@@ -512,7 +602,7 @@ fn apply_stub(
     se: &mut Vec<u8>,
     target: &Path,
     preamble: &str,
-    names: &[String],
+    names: &Recog,
     old: &str,
 ) -> bool {
     // the first require statement of an emitted program: (start, end, module)
@@ -633,6 +723,28 @@ fn apply_stub(
         }
         // --no-std: the emitted program behaves differently
         "nostd" => edit_emitted(&|t: &str| Some(format!("{}\nprint(\"c20 --no-std\")\n", t)), so),
+        // an existing FILE that is not a regular file is refused although it can be written
+        "refuse-special" => {
+            let ok = *exit == 0;
+            *exit = 1;
+            so.clear();
+            *se = b"Cannot write to FILE - it is not a file\n".to_vec();
+            ok
+        }
+        // of several errors without a source location only the first is printed
+        "drop-missing" => {
+            let text = strip_ansi(&String::from_utf8_lossy(so));
+            let first = names.missing.iter().find(|m| text.contains(m.as_str())).cloned();
+            let kept: Vec<&str> = text
+                .lines()
+                .filter(|l| !names.missing.iter().any(|m| l.contains(m.as_str())) || first.as_ref().map(|m| l.contains(m.as_str())).unwrap_or(false))
+                .collect();
+            let ok = names.missing.len() >= 2 && kept.len() < text.lines().count();
+            *so = format!("{}\n", kept.join("\n")).into_bytes();
+            ok
+        }
+        // stdout took only a part of one write: some bytes in the middle of the program are lost
+        "lose-bytes" => edit_emitted(&|t: &str| if mode == "stdout" && t.len() > 4000 { Some(format!("{}{}", &t[..t.len() - 3000], &t[t.len() - 2900..])) } else { None }, so),
         // run mode: the program was never executed
         "run-skip" => {
             let ok = mode == "run" && !so.is_empty();
@@ -653,7 +765,16 @@ fn run_case(case: &Value, sylt: &str, lua: &str, scratch: &Path, shimdir: &Path,
     let spell = case["spell"].as_u64().unwrap();
     let stub = case["stub"].as_str().unwrap_or("").to_string();
     let files = program(pk, pn, why, std_, v);
-    let names: Vec<String> = files.keys().cloned().collect();
+    let missing: Vec<String> = match why {
+        "missing2" => vec!["c20gone1.sy", "c20gone2.sy"],
+        "missing3" => vec!["c20gone1.sy", "c20gone2.sy", "c20gone3.sy"],
+        "missing_shared" | "missing_plus_syntax" => vec!["c20gone1.sy"],
+        _ => vec![],
+    }
+    .into_iter()
+    .map(String::from)
+    .collect();
+    let names = Recog { names: files.keys().cloned().collect(), missing: missing.clone() };
     let (args, module) = argv(cfg, spell, idx);
 
     // the reference: the same files, compiled from memory through the library API, and run in minilua
@@ -685,16 +806,68 @@ fn run_case(case: &Value, sylt: &str, lua: &str, scratch: &Path, shimdir: &Path,
     std::fs::write(dir.join(format!("{}.lua", MODULE)), "c20mod_loaded = true\n").unwrap();
     let t = target_of(mode, path);
     let target: PathBuf = dir.join(if mode == "file" { t.file.as_str() } else { "out.lua" });
-    let old = if path.starts_with("existing") { old_content(path, lua_like.len()) } else { String::new() };
+    let old = if path.starts_with("existing") {
+        old_content(path, lua_like.len())
+    } else if path == "symlink_file" {
+        old_content("existing_longer", lua_like.len())
+    } else {
+        String::new()
+    };
     match path {
         "existing_shorter" | "existing_equal" | "existing_longer" => std::fs::write(&target, &old).unwrap(),
         "is_directory" => {
             std::fs::create_dir_all(&target).unwrap();
             std::fs::write(target.join("keep.txt"), "keep\n").unwrap();
         }
+        "symlink_file" => {
+            std::fs::write(dir.join("real.lua"), &old).unwrap();
+            std::os::unix::fs::symlink("real.lua", &target).unwrap();
+        }
+        "symlink_dangling" => std::os::unix::fs::symlink("nowhere.lua", &target).unwrap(),
+        "fifo" => {
+            let st = Command::new("mkfifo").arg(&target).status();
+            if !st.map(|x| x.success()).unwrap_or(false) {
+                tool_error("mkfifo failed");
+            }
+        }
         _ => {}
     }
-    let before = path_fact(&target, lua_like);
+    // a reader at the other end of the fifo, for as long as the command runs: what it receives is what FILE "shows"
+    let fifo_stop = std::sync::Arc::new(std::sync::atomic::AtomicBool::new(false));
+    let fifo_reader = if path == "fifo" {
+        use std::io::Read;
+        use std::os::unix::fs::OpenOptionsExt;
+        // O_RDWR | O_NONBLOCK: opening does not wait for a writer, reading an empty pipe does not block
+        let mut fh = std::fs::OpenOptions::new().read(true).write(true).custom_flags(0o4000).open(&target).unwrap_or_else(|e| tool_error(&format!("fifo: {}", e)));
+        let stop = fifo_stop.clone();
+        Some(std::thread::spawn(move || {
+            let mut got: Vec<u8> = Vec::new();
+            let mut buf = [0u8; 65536];
+            loop {
+                match fh.read(&mut buf) {
+                    Ok(0) => std::thread::sleep(std::time::Duration::from_millis(1)),
+                    Ok(n) => got.extend_from_slice(&buf[..n]),
+                    Err(e) if e.kind() == std::io::ErrorKind::WouldBlock => {
+                        if stop.load(std::sync::atomic::Ordering::SeqCst) {
+                            break;
+                        }
+                        std::thread::sleep(std::time::Duration::from_millis(1));
+                    }
+                    Err(e) if e.kind() == std::io::ErrorKind::Interrupted => {}
+                    Err(_) => break,
+                }
+            }
+            got
+        }))
+    } else {
+        None
+    };
+    let special_fact = |k: &str, bytes: &[u8]| json!({"k": k, "len": bytes.len(), "digest": if bytes.is_empty() { String::new() } else { digest(bytes) }, "lcp": lcp(bytes, lua_like)});
+    let before = match path {
+        "dev_stdout" => special_fact("nofile", &[]),
+        "fifo" => special_fact("fifo", &[]),
+        _ => path_fact(&target, lua_like),
+    };
     let listing = |d: &Path| -> Vec<String> {
         let mut n: Vec<String> = std::fs::read_dir(d).unwrap().filter_map(|e| e.ok()).map(|e| e.file_name().to_string_lossy().to_string()).collect();
         n.sort();
@@ -722,12 +895,23 @@ fn run_case(case: &Value, sylt: &str, lua: &str, scratch: &Path, shimdir: &Path,
         .stdout(if path == "unwritable" {
             // stdout itself is the unwritable output path: every write to it fails with ENOSPC
             std::fs::write(&so_p, b"").unwrap();
-            std::fs::OpenOptions::new().write(true).open("/dev/full").unwrap_or_else(|e| tool_error(&format!("/dev/full: {}", e)))
+            Stdio::from(std::fs::OpenOptions::new().write(true).open("/dev/full").unwrap_or_else(|e| tool_error(&format!("/dev/full: {}", e))))
+        } else if path == "dev_stdout" {
+            // FILE = /dev/stdout shall be a pipe (not a regular file): the recorder reads its other end
+            Stdio::piped()
         } else {
-            std::fs::File::create(&so_p).unwrap()
+            Stdio::from(std::fs::File::create(&so_p).unwrap())
         })
         .stderr(std::fs::File::create(&se_p).unwrap());
     let mut child = cmd.spawn().unwrap_or_else(|e| tool_error(&format!("cannot start {}: {}", sylt, e)));
+    let pipe_reader = child.stdout.take().map(|mut out| {
+        std::thread::spawn(move || {
+            use std::io::Read;
+            let mut got = Vec::new();
+            let _ = out.read_to_end(&mut got);
+            got
+        })
+    });
     let t0 = std::time::Instant::now();
     let (mut exit, timed_out) = loop {
         match child.try_wait().unwrap() {
@@ -745,17 +929,30 @@ fn run_case(case: &Value, sylt: &str, lua: &str, scratch: &Path, shimdir: &Path,
     if lua_started {
         wait_for(&done_p, 5000);
     }
-    let mut so = std::fs::read(&so_p).unwrap_or_default();
+    let mut so = match pipe_reader {
+        Some(h) => h.join().unwrap_or_default(),
+        None => std::fs::read(&so_p).unwrap_or_default(),
+    };
+    fifo_stop.store(true, std::sync::atomic::Ordering::SeqCst);
+    let fifo_got: Vec<u8> = fifo_reader.map(|h| h.join().unwrap_or_default()).unwrap_or_default();
     let mut se = std::fs::read(&se_p).unwrap_or_default();
     let stub_applied = if stub.is_empty() { false } else { apply_stub(&stub, mode, &mut exit, &mut so, &mut se, &target, preamble, &names, &old) };
     let so_text = String::from_utf8_lossy(&so).to_string();
     let se_text = String::from_utf8_lossy(&se).to_string();
     let chunk = std::fs::read(&chunk_p).unwrap_or_default();
     let luaerr = String::from_utf8_lossy(&std::fs::read(&luaerr_p).unwrap_or_default()).trim().to_string();
-    let after = path_fact(&target, lua_like);
+    let after = match path {
+        "dev_stdout" => special_fact("nofile", &[]),
+        "fifo" => {
+            use std::os::unix::fs::FileTypeExt;
+            let still = std::fs::symlink_metadata(&target).map(|m| m.file_type().is_fifo()).unwrap_or(false);
+            special_fact(if still { "fifo" } else { "other" }, &fifo_got)
+        }
+        _ => path_fact(&target, lua_like),
+    };
     let names_after: Vec<String> = listing(&dir).into_iter().filter(|n| n != ".obs").collect();
     let expected_names: Vec<String> = names_before.iter().cloned().collect();
-    let extra: Vec<String> = names_after.iter().filter(|n| !expected_names.contains(n) && !(mode == "file" && path == "absent" && *n == "out.lua")).cloned().collect();
+    let extra: Vec<String> = names_after.iter().filter(|n| !expected_names.contains(n) && !(mode == "file" && path == "absent" && *n == "out.lua") && !(path == "symlink_dangling" && *n == "nowhere.lua")).cloned().collect();
     let sources_intact = files.iter().all(|(n, t)| std::fs::read_to_string(dir.join(n)).map(|x| &x == t).unwrap_or(false));
 
     let emitted: (&[u8], &str) = match mode {
@@ -763,7 +960,13 @@ fn run_case(case: &Value, sylt: &str, lua: &str, scratch: &Path, shimdir: &Path,
         "stdout" => (&so, "stdout"),
         _ => (&[], "file"),
     };
-    let file_bytes = if mode == "file" && after["k"] == "file" { std::fs::read(&target).unwrap_or_default() } else { vec![] };
+    // where the emitted program can be looked at: FILE, the reader's end of the fifo, or stdout for FILE = /dev/stdout
+    let file_bytes = match path {
+        "fifo" => fifo_got.clone(),
+        "dev_stdout" => so.clone(),
+        _ if mode == "file" && after["k"] == "file" => std::fs::read(&target).unwrap_or_default(),
+        _ => vec![],
+    };
     let emit = if mode == "file" { emit_facts(&file_bytes, preamble, "file") } else { emit_facts(emitted.0, preamble, emitted.1) };
 
     // error blocks wherever the command printed them
@@ -777,7 +980,7 @@ fn run_case(case: &Value, sylt: &str, lua: &str, scratch: &Path, shimdir: &Path,
     }
     json!({
         "idx": idx, "base": case["base"], "v": v, "spell": spell, "cfg": cfg, "argv": args, "module": module,
-        "stub": stub, "stub_applied": stub_applied,
+        "stub": stub, "stub_applied": stub_applied, "missing": missing,
         "files": files, "exit": exit, "timed_out": timed_out,
         "se": {"len": se.len(), "panic": se_text.contains("panicked at"), "summary": se_text.starts_with("Error: "),
                "text": se_text.chars().take(400).collect::<String>()},
